@@ -193,7 +193,7 @@ func (n *extension) delete(m *mpt, nibs []byte, depth int) (node, bool, trie.Obj
 			n.next = next
 		}
 	}
-	return n, false, nil, nil
+	return n, false, nil, err
 }
 
 func (n *extension) get(m *mpt, nibs []byte, depth int) (node, trie.Object, error) {
